@@ -3,6 +3,7 @@ import OptRs.Driver.Terms
 import OptRs.Driver.Topology
 import OptRs.Driver.Perceive
 import OptRs.Driver.FF
+import OptRs.Driver.SD
 open OptRs.Driver
 
 partial def loop (h : IO.FS.Stream) (out : IO.FS.Stream) (f : String → String) : IO Unit := do
@@ -22,5 +23,6 @@ def main (args : List String) : IO UInt32 := do
   | ["matrix"] => loop stdin stdout matrixLine; return 0
   | ["perceive"] => loop stdin stdout perceiveLine; return 0
   | ["ff"] => loop stdin stdout ffLine; return 0
+  | ["sd"] => loop stdin stdout sdLine; return 0
   | ["atoms-oracle"] => loop stdin stdout AtomsOracle.check; return 0
   | _ => IO.eprintln "usage: optrs-model <stream>"; return 2
